@@ -351,7 +351,7 @@ func runFaultHistories(c *Ctx) {
 		for j := first; j < len(group); j++ {
 			fresh := group[j].runGo()
 			c.Eval(1)
-			if fresh.Panic != "" || hist[j].Panic != "" {
+			if fresh.Panic != "" || hist[j].Panic != "" || fresh.ClockHit || hist[j].ClockHit {
 				continue
 			}
 			if d := diffAdmit(fresh, hist[j], "allowed code causes message warnings ann audit evalCalls listCalls metrics timeout"); len(d) > 0 {
